@@ -103,11 +103,11 @@ for fn, keys in groups.items():
 findings.append({"id": "KF-C06-cfb-chase-fat", "property": "C06", "also_properties": ["C13"], "rule": "R-CHASE",
     "what_fails": "cfb::Sectors::get_chain follows `sector_id = fats[sector_id]` until ENDOFCHAIN with no other exit: a cyclic FAT chain never ends and the output vector grows until allocation fails (every reader that sniffs CFB is affected: xls, vba, and the xlsx/xlsb password check)",
     "demo": "kf_c06_cfb_cyclic_fat_chain_terminates (a 6 KB file aborts with 'memory allocation of 4294967296 bytes failed')",
-    "directly_demonstrated": ["cfb::Sectors::get_chain|R-CHASE|while#1 sector_id"], "site_keys": ["cfb::Sectors::get_chain|R-CHASE|while#1 sector_id"]})
+    "directly_demonstrated": ["cfb::Sectors::get_chain|R-CHASE|while#1"], "site_keys": ["cfb::Sectors::get_chain|R-CHASE|while#1"]})
 findings.append({"id": "KF-C06-cfb-chase-difat", "property": "C06", "also_properties": ["C13"], "rule": "R-CHASE",
     "what_fails": "cfb::Cfb::new walks the DIFAT chain (`sector_id = difat.pop()`; source comment: TODO check if in infinite loop) with no other exit: a DIFAT sector whose link points to itself is re-read forever while `difat` grows",
     "demo": "kf_c06_cfb_cyclic_difat_chain_terminates (no result within 15 s)",
-    "directly_demonstrated": ["cfb::Cfb::new|R-CHASE|while#1 sector_id"], "site_keys": ["cfb::Cfb::new|R-CHASE|while#1 sector_id"]})
+    "directly_demonstrated": ["cfb::Cfb::new|R-CHASE|while#1"], "site_keys": ["cfb::Cfb::new|R-CHASE|while#1"]})
 PIC_KEYS = ["xls::parse_pictures|R-INDEX|index 33 of local.data", "xls::parse_pictures|R-INDEX|[a..] src8+36 of local.data", "xls::parse_pictures|R-INDEX|[a..] src64 of local.data"] + \
     ["xls::parse_pictures|R-PANIC|panic unreachable" + ("" if i == 1 else "#%d" % i) for i in range(1, 8)]
 findings.append({"id": "KF-C06-xls-parse-pictures", "property": "C06", "rule": "R-INDEX,R-PANIC", "config": "feature picture",
